@@ -74,6 +74,8 @@ def run(ctx):
                 if got - refset:
                     ctx.violation("reduction %s (%s) reaches an outcome the reference semantics cannot reach" % (red, cname), files=files,
                                   signature=sig + ":foreign", detail=json.dumps(K.prog_brief(progs[i])))
+                if r["deadlock"] != can_dl and "did not do any transition before terminating" in r["out"]:
+                    sig = "C38:initial-deadlock"       # known finding: a program deadlocked in its initial state is reported as fine
                 if r["deadlock"] != can_dl:
                     ctx.violation("reduction %s (%s): deadlock %s but the reference says a deadlock is %s" %
                                   (red, cname, "reported" if r["deadlock"] else "not reported", "reachable" if can_dl else "unreachable"),
